@@ -4,7 +4,7 @@
 
 From Coq Require Import List Bool ZArith QArith Arith.
 Import ListNotations.
-From PS Require Import Num ModelKernels ModelFuncs ModelAPI.
+From PS Require Import Num ModelKernels ModelFuncs ModelAPI Heap.
 
 Inductive val : Type :=
 | VQ (q : Q)
@@ -94,3 +94,29 @@ Definition encTrain (t : list Q * Q * Q) : val :=
 Definition encMatrix (m : list (list Q)) : val := VL (map encQs m).
 Definition encPairQ (p : Q * Q) : val := VL [VQ (fst p); VQ (snd p)].
 
+
+(* strings = lists of character codes *)
+Definition asStrs (v : val) : option (list (list nat)) :=
+  match v with VL l => all_some (map asNs l) | _ => None end.
+Definition asStrsL (v : val) : option (list (list (list nat))) :=
+  match v with VL l => all_some (map asStrs l) | _ => None end.
+Definition encStr (s : list nat) : val := VL (map VN s).
+
+Definition asPwc (v : val) : option (list Q * list Q) :=
+  match v with
+  | VL [x; y] => match asQs x, asQs y with Some a, Some b => Some (a, b) | _, _ => None end
+  | _ => None
+  end.
+Definition asPwcs (v : val) : option (list (list Q * list Q)) :=
+  match v with VL l => all_some (map asPwc l) | _ => None end.
+
+(* ops: (#0 i j) add, (#1 i c) mul, (#2 i) copy *)
+Definition asOp (v : val) : option (@op Q) :=
+  match v with
+  | VL [VN 0; VN i; VN j] => Some (OAdd i j)
+  | VL [VN 1; VN i; VQ c] => Some (OMul i c)
+  | VL [VN 2; VN i] => Some (OCopy i)
+  | _ => None
+  end.
+Definition asOps (v : val) : option (list (@op Q)) :=
+  match v with VL l => all_some (map asOp l) | _ => None end.
